@@ -130,6 +130,21 @@ class Exec(ExprMixin, CallMixin, BuiltinMixin, StmtMixin):
         leaf = lambda x, d: z3.And(x != N.NNil, N.data(x) == d, N.left(x) == N.NNil, N.right(x) == N.NNil)
         return VBool(z3.And(n != N.NNil, N.data(n) == op, leaf(N.left(n), l), leaf(N.right(n), r)))
 
+    def prim_top(self, args, path, node):
+        v = args[0]
+        S_ = self.ctx.sorts.stack_sort(v.elem_kind)
+        return self.ctx.val_of(v.elem_kind, S_.top(v.t))
+
+    def prim_popped(self, args, path, node):
+        v = args[0]
+        S_ = self.ctx.sorts.stack_sort(v.elem_kind)
+        return VStack(S_.below(v.t), v.elem_kind)
+
+    def prim_no_more(self, args, path, node):
+        v = args[0]
+        S_ = self.ctx.sorts.stack_sort(v.elem_kind)
+        return VBool(S_.is_SNil(v.t))
+
     def prim_is_text(self, args, path, node):
         v = args[0]
         if isinstance(v, VStr):
